@@ -28,6 +28,7 @@ type Case struct {
 	dest0v    reflect.Value
 	PoolMode  string
 	TypesOK   bool   // every callback received an argument of the documented dynamic type
+	SchemaCoq string // Gallina schema term when the schema is given as a builder chain
 	FE        string // front end the input travelled through ("" = plain Go value)
 	DataCoq   string // Gallina [data] term when the input is a provider or a factory
 	FEChecked bool   // the cross-front-end oracle applied
@@ -348,8 +349,15 @@ func (c *Case) Coq() string {
 		data = "(DVal " + CoqIVal(*c.In) + ")"
 	}
 	return fmt.Sprintf("  (%s\n   EC %d %s %s\n     %s\n     %s %s %s %s %s\n     %s)",
-		c.oracles(), c.ID, mode, CoqSchema(c.Schema, c.Order), data, c.Dest0,
+		c.oracles(), c.ID, mode, c.schemaCoq(), data, c.Dest0,
 		CoqBool(c.Known), CoqBool(c.Collide), CoqBool(c.CtxOK && c.TypesOK), CoqBool(c.RepeatsAgree()), CoqObserved(&c.Obs, c.Schema))
+}
+
+func (c *Case) schemaCoq() string {
+	if c.SchemaCoq != "" {
+		return c.SchemaCoq
+	}
+	return CoqSchema(c.Schema, c.Order)
 }
 
 func (c *Case) oracles() string {
